@@ -172,7 +172,13 @@ def run(chk: Check, model):
     chk.add("C16.info", "connect always registers the connection it built", len(regs_ev) == 2 and all(e.guard == T.TRUE for e in regs_ev),
             "every call of connect must store the freshly built Connection in self.inputs and output_node.outputs (an in-place update of an older edge copies only some "
             "of the settings)", chk.loc(fi))
-    regs = {e.name: (e.key, e.term) for e in r.events if e.kind == "store_sub"}
+    # (a key read back from the new connection, `connection.input_name` / `connection.input_node.name`, is what the constructor stored under that
+    # attribute - C16.init above: the parameter of the same role)
+    attr_param = {a: p_ for (c_, p_), a in ctor_attr.items() if c_ == "Connection"}
+
+    def _read_back(t):
+        return T.subst(t, {("attr", mk[0].term, a): bound[p_] for a, p_ in attr_param.items() if p_ in bound})
+    regs = {e.name: (_read_back(e.key), e.term) for e in r.events if e.kind == "store_sub"}
     nkey = _drop_isinstance(regs.get("self.inputs", (T.NONE, T.NONE))[0], True)
     chk.add("C16.info", "connect registers the input under its (shadow) name", nkey == S("name") and regs["self.inputs"][1] == mk[0].term,
             f"self.inputs[{T.show(nkey)}] = {T.show(regs.get('self.inputs', (T.NONE, T.NONE))[1])[:80]}", chk.loc(fi))
